@@ -193,8 +193,10 @@ class DecoderAnalysis:
         self.prog = prog
         self.memo = {}
         self.memo_stats = {}
+        self.memo_all = {}
         self._summaries = {}
         self.stack = []
+        self.ctx_targets = set()     # bodies that are always analysed in their callers' contexts (C11.peer-indexing)
 
     def analyze(self, body, entry=(), foreign=()):
         """entry: tuple of (param local, lo, hi) constant bounds on a buffer parameter's length; foreign: facts of the
@@ -211,6 +213,7 @@ class DecoderAnalysis:
         out, stats = self._run(body, entry, foreign)
         self.memo[key] = out
         self.memo_stats[key] = stats
+        self.memo_all[key] = self.last_all
         self.stack.pop()
         self.last_stats = stats
         return out
@@ -408,7 +411,23 @@ class DecoderAnalysis:
                         if s is not None and en is not None and n is not None:
                             for tgt in some_t:
                                 res.setdefault(tgt, []).extend([en - n - Lin(1), n - s])
-                elif x[0] == "call" and x[1] in self.prog.bodies:
+                # `value?` / `match value { Some(..) | Ok(..) => .. }`: on the continuing edge the value is known to be Some / Ok
+                through_try0 = False
+                y0 = e[1]
+                while y0[0] in ("via", "ref", "deref"):
+                    if y0[0] == "via" and y0[1] == "std::ops::Try::branch":
+                        through_try0 = True
+                        y0 = y0[2]
+                        break
+                    y0 = y0[2] if y0[0] == "via" else y0[1]
+                if through_try0:
+                    listed0 = {v: tgt for v, tgt in t["targets"]}
+                    cont_t = [listed0[0]] if 0 in listed0 else ([other] if len(listed0) == 1 else [])
+                    k0, deps0 = vkey(lz, y0)
+                    for tgt in cont_t:
+                        res.setdefault(tgt, []).append(VFact(k0, "Some", deps0))
+                        res.setdefault(tgt, []).append(VFact(k0, "Ok", deps0))
+                if x[0] == "call" and x[1] in self.prog.bodies:
                     # `helper(..)?` / `match helper(..) { Ok(..) => .. }`: the Ok / Some edge carries the helper's postcondition
                     callee = self.prog.bodies[x[1]]
                     rt = callee.ty(0)
@@ -706,6 +725,8 @@ class DecoderAnalysis:
                         step //= 2
                     if lo > 0:
                         ctx.append((i + 1, lo, None))
+        if callee.path in self.ctx_targets:
+            follows = True
         if not follows:
             return
         # the caller's facts at the call site travel with the call: a length test made before handing `bytes, start, count`
@@ -733,9 +754,42 @@ class DecoderAnalysis:
                 L = lz.length(ae)
                 if L is not None and array_len(callee, pty) is None:
                     binds.append((Lin(0, {("len", ("L", p, nm)): 1}), L))
+        # a parameter that is a reference to a structure: lengths of its fields are the lengths of the same fields of the argument
+        from ..expr import field_path
+        fact_list = [f for f in list(facts.values()) + list(lz.intrinsic.values()) if isinstance(f, Lin)]
+        for i, a in enumerate(t["args"]):
+            p = i + 1
+            if p > callee.argc or callee.defs(p) or callee.partial_defs(p):
+                continue
+            pty = callee.ty(p)
+            base_ty = pty
+            while base_ty["k"] in ("ref", "refmut"):
+                base_ty = callee.tyix(base_ty["i"])
+            if pty["k"] != "ref" or base_ty["k"] != "adt":
+                continue
+            ae = ch.origin(a)
+            afp = field_path(ae)
+            roots = [y for y in walk(ae) if y[0] in ("param", "local")]
+            if not afp or len(roots) != 1:
+                continue
+            prefix = "%s." % afp
+            suffix = "#%d" % roots[0][1]
+            pname = callee.name_of(p) or "_%d" % p
+            for f in fact_list:
+                for k in f.t:
+                    if k[0] == "len" and isinstance(k[1], tuple) and k[1][0] == "L" and k[1][1] == -1 and isinstance(k[1][2], str) \
+                            and k[1][2].startswith(prefix) and k[1][2].endswith(suffix):
+                        rest = k[1][2][len(afp):-len(suffix)]
+                        ck = ("len", ("L", -1, "%s%s#%d" % (pname, rest, p)))
+                        binds.append((Lin(0, {ck: 1}), Lin(0, {k: 1})))
         if binds:
+            seenb = set()
             for pl, v in binds:
                 ve = ext_lin(v)
+                kk = (pl.key(), ve.key())
+                if kk in seenb:
+                    continue
+                seenb.add(kk)
                 foreign += [pl - ve, ve - pl]
             for f in list(facts.values()) + list(lz.intrinsic.values()):
                 if isinstance(f, Lin):
